@@ -67,9 +67,9 @@ func c16Hints(cs *core.Case) (ran bool, sym, det string) {
 			ws[w] = true
 		}
 		// Every select the engine issues must be one the reference issues. A select
-		// the engine never issues (an operand it did not need to evaluate, e.g. the
-		// scalar argument of a function whose vector argument is empty) is tolerated
-		// and counted.
+		// the engine never issues is tolerated (and counted) only if the evaluation
+		// produced nothing - an operand it did not need to evaluate, e.g. the scalar
+		// argument of a function whose vector argument is empty.
 		for _, e := range eng {
 			if !ws[e] {
 				closest := ""
@@ -82,7 +82,14 @@ func c16Hints(cs *core.Case) (ran bool, sym, det string) {
 				return true, "hints", fmt.Sprintf("engine selects %s; the reference issues no such select (closest unmatched: %s)", e, closest)
 			}
 		}
-		return true, "lazy", ""
+		if out.Res.Failed() || out.Res.NPoints() == 0 {
+			return true, "lazy", ""
+		}
+		for _, w := range want {
+			if !es[w] {
+				return true, "hints", "the reference selects " + w + "; the engine issues no such select although it returns a non-empty result"
+			}
+		}
 	}
 	return true, "", ""
 }
